@@ -54,7 +54,8 @@ def ob_step(a: int, b: int, c: int, hold: int) -> bool:
     else:
         hold = None
     w = S.in_state(state, dict(P.get('cfg', {})), hold=hold, closing=P.get('closing', False),
-                   old_closing=P.get('old_closing', False), pending_attempt=P.get('pending_attempt', False))
+                   old_closing=P.get('old_closing', False), pending_attempt=P.get('pending_attempt', False),
+                   old_closed=P.get('old_closed', False))
     mark = w.mark()
     if ev == 'close_done_old':
         w.old_connector.world_connection_lost()
@@ -92,6 +93,11 @@ def obligations(tier, seed):
         for ev in evs:
             out.append(ob('C12/step-old-closing/%s/%s' % (S.STATE_NAMES[state], ev), 'ob_step',
                           {'state': state, 'ev': ev, 'old_closing': True}, covers=['stepped'], cap=120))
+    # an earlier connection that is completely over is still referenced by the FSM
+    for state in (S.IDLE, S.CONNECT):
+        for ev in SC.EVENTS_BY_STATE[state]:
+            out.append(ob('C12/step-after-earlier-connection/%s/%s' % (S.STATE_NAMES[state], ev), 'ob_step',
+                          {'state': state, 'ev': ev, 'old_closed': True}, covers=['stepped'], cap=120))
     # Idle with an attempt still pending (the old connection closed late, after stop/start)
     for ev in ('start_idlehold', 'manual_start', 'tcp_ok', 'tcp_fail', 'manual_stop'):
         out.append(ob('C12/step-idle-pending-attempt/%s' % ev, 'ob_step',
